@@ -60,6 +60,21 @@ FAULTS = [
     ("type", "float-array<-complex", ["float array CA =", "    %(f)s, %(c)s"]),
     ("type", "int-array<-complex", ["int array CA =", "    %(c)s"]),
     ("type", "int-array<-computed-complex", ["int array CA =", "    %(i)s, %(i2)s * %(c)s"]),
+    # computed complex values whose imaginary part is zero or a rounding residue are complex values all the same
+    ("type", "float<-function-of-complex", ["float cf = exp(1j*pi)"]),
+    ("type", "int<-function-of-complex", ["int ci = cosh(1j*pi)"]),
+    ("type", "float<-sqrt-of-complex", ["float cf = sqrt(4+0j)"]),
+    ("type", "float<-function-of-symbolic-complex", ["float cf = exp(%(c)s)"]),
+    ("type", "float<-expr-on-function-of-complex", ["float cf = %(f)s + 2*exp(1j*pi)"]),
+    ("type", "float<-product-of-conjugates", ["float cf = (1+2j)*(1-2j)"]),
+    ("type", "float<-complex-minus-itself", ["float cf = (%(f)s+1j) - 1j"]),
+    ("type", "float<-complex-zero-imag-literal", ["float cf = %(f)s+0j"]),
+    ("type", "int<-complex-power", ["int ci = (1j)**2"]),
+    ("type", "float-array<-function-of-complex", ["float array CA =", "    %(f)s, exp(1j*pi)"]),
+    ("type", "int-array<-function-of-complex", ["int array CA[1, 2] =", "    %(i)s, cos(0j)"]),
+    ("mode", "function-of-complex", ["Vac | cosh(0j)"]),
+    ("mode", "complex-zero-imag", ["Vac | %(i)s+0j"]),
+    ("loopvalue", "function-of-complex-in-float", ["for float j in [exp(1j*pi)]", "    Dgate(j) | %(m)s"]),
     ("loopvalue", "float-in-int", ["for int j in [%(i)s, %(f)s]", "    Vac | j"]),
     ("loopvalue", "str-in-int", ['for int j in [%(i)s, "a"]', "    Vac | j"]),
     ("loopvalue", "str-in-float", ['for float j in ["a"]', "    Dgate(j) | %(m)s"]),
